@@ -399,7 +399,10 @@ fn encode_subframe(
 
         let too_short = samples.len() < MIN_BLOCK_SIZE_FOR_PREDICTION;
         let fixed = if !too_short && config.use_fixed {
+            // `fixed_lpc` may accept a candidate based on an *estimated* size, so
+            // keep it only if its actual size beats the verbatim encoding.
             fixed_lpc(config, samples, bits_per_sample, baseline_bits)
+                .filter(|x| x.count_bits() < baseline_bits)
         } else {
             None
         };
